@@ -235,6 +235,15 @@ class Ctx:
     def case(self, case, nontrivial_key=None, sample_every=None):
         """register one evaluated case; nontrivial_key (hashable) marks it distinct+nontrivial"""
         self.evaluations += 1
+        prog = os.environ.get('VERIF_PROGRESS')
+        if prog and (self.evaluations < 50 or self.evaluations % 20 == 0 or time.time() - getattr(self, '_tprog', 0) > 0.5):
+            self._tprog = time.time()
+            try:
+                with open(prog + '.tmp', 'w') as f:
+                    json.dump(dict(evaluations=self.evaluations, case=case), f, default=str)
+                os.replace(prog + '.tmp', prog)
+            except Exception:
+                pass
         if nontrivial_key is not None:
             self.nontrivial.add(nontrivial_key if isinstance(nontrivial_key, (str, int, tuple))
                                 else json.dumps(nontrivial_key, sort_keys=True))
